@@ -163,7 +163,39 @@ let fn_line toks =
        print_string "R end\n")
   | _ -> ()
 
+(* ---- strips mode: "<namehex> <eltsz> <buf> <flags> <comp> <d0> <d1> ..." -> the blocks copy_sds reads, in the
+   format of harness/drive_repack_strips.c *)
+let strips_line toks =
+  match toks with
+  | nm :: es :: bf :: fl :: cp :: ds when ds <> [] ->
+    let z s = z_of_int (int_of_string s) in
+    let dims = List.map z ds in
+    let show l = String.concat " " (List.map (fun x -> string_of_int (int_of_z x)) l) in
+    let bytes = Z.mul (zprod dims) (z es) in
+    let blocks =
+      (* the model's loop itself (strip_walk) with enough fuel for the number of blocks; [strips] uses one unit of
+         fuel per array element, which is what the theorem is about but far more than the loop needs *)
+      let rec nat_of_int n = if n = 0 then O else S (nat_of_int (n - 1)) in
+      if strip_mined bytes (z fl) (z cp) then
+        strip_walk (nat_of_int 100000) dims (sm_sizes dims (z es) (z bf)) (List.map (fun _ -> Z0) dims) Z0 (zprod dims)
+      else Some (one_piece copy_sds_start copy_sds_edge dims) in
+    (match blocks with
+     | None -> print_string ("B " ^ nm ^ " out-of-fuel\n")
+     | Some l -> List.iter (fun (st, ed) ->
+         Printf.printf "B %s %d %s | %s | %s\n" nm (List.length dims) (show dims) (show st) (show ed)) l)
+  | _ -> ()
+
 let () =
+  if Array.length Sys.argv > 2 && Sys.argv.(1) = "strips" then begin
+    let ic = open_in Sys.argv.(2) in
+    (try
+       while true do
+         let line = input_line ic in
+         strips_line (List.filter (fun s -> s <> "") (String.split_on_char ' ' line))
+       done
+     with End_of_file -> ());
+    exit 0
+  end;
   if Array.length Sys.argv > 2 && Sys.argv.(1) = "fn" then begin
     let ic = open_in Sys.argv.(2) in
     (try
